@@ -204,6 +204,17 @@ class Model:
         from .equiv import _rename_everywhere, detect_renames, heal_module, reference_module
 
         changed = [self.modules[n] for n in self._to_heal if reference_module(self.modules[n].relpath) is not None and reference_module(self.modules[n].relpath)[0] != self.modules[n].src]
+        # literal constants introduced at module level in a changed module, usable from the other changed modules
+        from . import equiv as _equiv
+
+        _equiv.EXTRA_CONSTS = {}
+        ids = _equiv.reference_identifiers()
+        for m in changed:
+            cc = _equiv.const_table(m.tree)
+            rc = _equiv.const_table(reference_module(m.relpath)[1])
+            for k, v in cc.items():
+                if "." not in k and k not in rc and k not in ids:
+                    _equiv.EXTRA_CONSTS[k] = v
         renames: Dict[str, str] = {}
         for m in changed:
             for new, old in detect_renames(m.relpath, m.src, m.tree).items():
